@@ -31,12 +31,18 @@ EXPLANATION = (
     "argument with default False. (7) allocate_buckets constructs a BucketWriter only over the false edge of "
     "os.path.exists(finalhome) (a complete immutable share is never replaced by a later upload) and over the false "
     "edge of os.path.exists(incominghome) unless ShareFile.__init__ itself refuses to create over an existing file. "
+    "(8) the same across helpers: every package function that abort / close call before bucket_writer_closed is followed "
+    "(3 levels, name/MRO call resolution); an os.rmdir / os.removedirs reached there must sit in a try whose OSError handler can "
+    "complete normally (in the helper or around the call), or behind an empty-listdir test of the same directory in the "
+    "helper, or - for a helper method called on self - behind such a test in abort / close (directories compared as "
+    "normal forms over self, os.path.split(X)[0] == os.path.dirname(X)). "
     "Undecided: RangeMap semantics, OS rename atomicity, the actual byte values; whether the 30-minute inactivity "
     "timer is re-armed by write (liveness of slow uploads); the return value of write/_is_finished (auto-close of "
     "HTTP uploads); exceptions raised by os.remove/os.listdir inside abort (environment); the admission arithmetic "
     "and the _bucket_writers bookkeeping (property C28); lease records written into the container (property C25); "
     "who passes discard_storage=True to the StorageServer constructor (node configuration).")
-TECHNIQUE = "static analysis: CFG path monitors with normalised edge facts, who-may-call / who-may-write sweeps"
+TECHNIQUE = ("static analysis: CFG path monitors with normalised edge facts, who-may-call / who-may-write sweeps, "
+             "exception-escape summary of called helpers")
 
 IMM = "storage.immutable"
 SRV = "storage.server"
@@ -163,6 +169,105 @@ def exc_protected(cfg, n):
                 if nm in _OSERR:
                     return True
     return False
+
+
+# ------------------------------------------------ directory removal that fails on a non-empty directory
+_RMDIR_TAILS = ("rmdir", "removedirs")
+
+
+def _canon_path(form):
+    """A normal form with os.path.split(X)[0] folded into os.path.dirname(X), so that the same directory spelled
+    in two functions compares equal."""
+    try:
+        tree = ast.parse(form, mode="eval").body
+    except (SyntaxError, ValueError):
+        return form
+
+    class Fold(ast.NodeTransformer):
+        def visit_Subscript(self, x):
+            self.generic_visit(x)
+            if isinstance(x.value, ast.Call) and call_name(x.value) == "os.path.split" and len(x.value.args) == 1 \
+                    and not x.value.keywords and isinstance(x.slice, ast.Constant) and x.slice.value == 0:
+                return ast.Call(func=ast.parse("os.path.dirname", mode="eval").body, args=[x.value.args[0]], keywords=[])
+            return x
+    return ast.unparse(Fold().visit(tree))
+
+
+def _self_only(form):
+    """The normal form mentions no variable besides self (and modules reached through os)."""
+    try:
+        tree = ast.parse(form, mode="eval").body
+    except (SyntaxError, ValueError):
+        return False
+    return {x.id for x in ast.walk(tree) if isinstance(x, ast.Name)} <= {"self", "os"}
+
+
+def exc_swallowed(cfg, n):
+    """exc_protected, and the handler that catches the OSError can complete normally (it does not re-raise on
+    every path)."""
+    for (d, lab) in cfg.successors(n):
+        if lab != "exc" or d.kind != "except":
+            continue
+        t = d.ast.type
+        elts = [] if t is None else (t.elts if isinstance(t, ast.Tuple) else [t])
+        names = {e.id if isinstance(e, ast.Name) else (e.attr if isinstance(e, ast.Attribute) else None) for e in elts}
+        if t is not None and not (names & _OSERR):
+            continue
+        vis, _par = explore(cfg, 0, lambda a_, l_, nx, s_: None if l_ == "exc" else 0, start=d)
+        if any(cfg.nodes[i].kind == "exit" for (i, _s) in vis):
+            return True
+    return False
+
+
+def _empty_dir_guarded(cfg, fnorm, n, canon_form):
+    """Every path to n saw os.listdir(<the same directory>) falsy.  Returns the unguarded paths."""
+    def gate(x, lab):
+        f = fnorm.edge_fact(x, lab)
+        if not f:
+            return False
+        op, l, rr = f
+        if op == "false" and l and l.startswith("os.listdir("):
+            return _canon_path(l) == "os.listdir(%s)" % canon_form
+        if op == "==" and {l, rr} & {"0"} and any(v and v.startswith("len(os.listdir(") for v in (l, rr)):
+            v = l if rr == "0" else rr
+            return _canon_path(v) == "len(os.listdir(%s))" % canon_form
+        return False
+    return find_path_avoiding(cfg, lambda x: x is n, skip_exc_edges=True, gate_edge=gate)
+
+
+def escaping_rmdirs(cg, fn, depth=0, seen=None):
+    """[(fn', call, canonical form or None, chain)]: the os.rmdir-like calls that `fn` can reach (through package
+    functions it calls, 3 levels deep) and whose 'directory not empty' OSError propagates out of `fn`: not inside a
+    try that swallows OSError and not behind an empty-listdir test of the same directory in the function that makes
+    the call.  `form` is the directory in terms of self (None when it depends on locals / parameters)."""
+    seen = set() if seen is None else seen
+    if fn.qual in seen or depth > 3:
+        return []
+    seen = seen | {fn.qual}
+    cfg = fn.cfg()
+    fnorm = FlowNorm(fn)
+    out = []
+    for n in cfg.nodes:
+        if n.id not in cfg.reachable_nodes():
+            continue
+        for c in node_calls(n):
+            if call_tail(c) in _RMDIR_TAILS and len(c.args) >= 1 and not cg.resolve(fn, c):
+                if exc_swallowed(cfg, n):
+                    continue
+                form = _canon_path(fnorm.norm(n, c.args[0]))
+                if not _empty_dir_guarded(cfg, fnorm, n, form):
+                    continue
+                out.append((fn, c, form if (_self_only(form) and fn.cls is not None) else None, [short(fn)]))
+                continue
+            for h in cg.resolve(fn, c):
+                if h is fn or exc_swallowed(cfg, n):
+                    continue
+                same_self = isinstance(c.func, ast.Attribute) and attr_path(c.func.value) == "self" and h.cls is not None
+                for (g, rc, form, chain) in escaping_rmdirs(cg, h, depth + 1, seen):
+                    if form is not None and same_self and not _empty_dir_guarded(cfg, fnorm, n, form):
+                        continue
+                    out.append((g, rc, form if same_self else None, [short(fn)] + chain))
+    return out
 
 
 def reaches(cfg, src_node, pred):
@@ -922,3 +1027,57 @@ def run(ctx: Context):
                                 "truncated away" % src(alloc, inc), w)
         if n_bw == 0:
             raise AnchorVanished("allocate_buckets no longer constructs a BucketWriter")
+
+    # ---------------------------------------------------------------- 8. tidying through helpers cannot cut abort / close short
+    with ctx.rule("C22.8", "R2/E4", "no call that abort / close make before bucket_writer_closed can let the 'directory not "
+                  "empty' OSError of an os.rmdir escape: an rmdir reached through a helper is inside a try that swallows "
+                  "OSError (in the helper or around the call) or behind an empty-listdir test of the same directory",
+                  expected=3) as r:
+        def any_release8(n):
+            return any(call_name(c) == "self.ss.bucket_writer_closed" for c in node_calls(n))
+        n_rmdir = 0
+        for m in (idx.func(BW + ".abort"), idx.func(BW + ".close")):
+            mcfg = m.cfg()
+            mnorm = FlowNorm(m)
+            if not mcfg.find(any_release8):
+                raise AnchorVanished("%s no longer calls self.ss.bucket_writer_closed" % short(m))
+            for n in mcfg.nodes:
+                if n.id not in mcfg.reachable_nodes() or not node_calls(n) or any_release8(n):
+                    continue
+                if not reaches(mcfg, n, any_release8):
+                    continue
+                for c in node_calls(n):
+                    direct = call_tail(c) in _RMDIR_TAILS and len(c.args) >= 1 and not cg.resolve(m, c)
+                    helpers = [] if direct else [h for h in cg.resolve(m, c) if h is not m]
+                    if not direct and not helpers:
+                        continue
+                    r.site(m, c, "removes a directory" if direct else "calls %s" % ", ".join(short(h) for h in helpers))
+                    r.count(1)
+                    if exc_swallowed(mcfg, n):
+                        n_rmdir += 1 if direct else 0
+                        continue
+                    if direct:
+                        n_rmdir += 1
+                        if call_name(c) == "os.rmdir" and len(c.args) == 1:
+                            continue          # the plain spelling is decided by C22.3
+                        form = _canon_path(mnorm.norm(n, c.args[0]))
+                        for (t, w) in _empty_dir_guarded(mcfg, mnorm, n, form):
+                            r.violation(m, m.loc(c), "%s removes %s with %s without checking that it is empty and outside a "
+                                        "try: with a sibling share still in progress the OSError escapes before "
+                                        "bucket_writer_closed" % (short(m), src(m, c.args[0]), call_name(c) or call_tail(c)), w)
+                        continue
+                    same_self = isinstance(c.func, ast.Attribute) and attr_path(c.func.value) == "self"
+                    for h in helpers:
+                        for (g, rc, form, chain) in escaping_rmdirs(cg, h):
+                            n_rmdir += 1
+                            bad = [(n, None)] if (form is None or not same_self or h.cls is None) else \
+                                _empty_dir_guarded(mcfg, mnorm, n, form)
+                            for (t, w) in bad:
+                                r.violation(m, m.loc(c), "%s calls %s outside a try, and %s there removes %s without knowing "
+                                            "that it is empty: with another upload in progress next to this one (a sibling "
+                                            "share, or a storage index with the same prefix directory) the OSError escapes "
+                                            "%s before self.closed is set and bucket_writer_closed is called - the "
+                                            "reservation is never released" % (
+                                                short(m), " -> ".join(chain), src(g, rc), form or src(g, rc.args[0]), short(m)), w)
+        if n_rmdir == 0:
+            raise AnchorVanished("abort / close no longer remove the incoming directories (nothing for the rule to decide)")
